@@ -38,6 +38,21 @@ add("C28", "history", "exploration", "runtime monitor: selection invariant walke
     "V (selected sheet exists, cell inside range, both inside the grid) runs after every API call.",
     HIST_NOTE)
 
+CODEC_NOTE = ("Trusted base: the harness's own reference codec for this property (stated in the evidence 'assumptions') and the engine's "
+              "public parser used as a normaliser where noted. Verdicts come from executing the real functions built from /repo's working tree.")
+add("C21", "codec", "exploration", "runtime monitor: exhaustive differential check of the real date functions against an independent days-from-civil reference",
+    "Every serial 1..=2958465 is pushed through from_excel_date, date_to_serial_number and format_number (exhaustive in both tiers); the Model-level date functions and typed ISO dates run over boundaries plus a sample (quick) or every serial (thorough).",
+    CODEC_NOTE)
+add("C22", "codec", "exploration", "runtime monitor: round-trip identity observed on the real column/address/sheet-name codecs, bounded-exhaustive plus random",
+    "All 16384 columns; boundary and random addresses in all four $-combinations through parse -> A1 print -> parse and parse -> R1C1 print -> parse; sheet names bounded-exhaustively over a tricky alphabet.",
+    CODEC_NOTE)
+add("C23", "codec", "exploration", "runtime monitor: exhaustive round trip of the function and error name tables in every language, plus an xlsx export/import leg",
+    "The complete function table (exposed by the verif_hooks re-export) x 5 languages and the xlsx names, and all error kinds, are checked on every run (exhaustive).",
+    CODEC_NOTE)
+add("C34", "codec", "exploration", "runtime monitor: metamorphic relation (four cycles = identity, only $ and case change, same target cells) over all cursor positions and selections",
+    "Random reference-bearing formulas in six language/locale pairs; every cursor position and every selection of short texts; four successive cycles each.",
+    CODEC_NOTE)
+
 NOT_YET = {}
 
 def main():
@@ -77,6 +92,14 @@ def main():
         "engines": [
             {"name": "history", "path": "harness/src/props/hist.rs", "serves_properties": ["C01", "C02", "C03", "C04", "C26", "C27", "C28"],
              "kind_free_text": "op histories through the real UserModel with snapshot, structure and selection monitors"},
+            {"name": "codec", "path": "harness/src/props/c21.rs, c22.rs, c23.rs, c34.rs, c11.rs, c18.rs, c19.rs, c20.rs", "serves_properties": ["C11", "C18", "C19", "C20", "C21", "C22", "C23", "C34"],
+             "kind_free_text": "text/number/date/name codecs driven exhaustively or bounded-exhaustively against independent reference codecs; crash capture"},
+            {"name": "formula", "path": "harness/src/props/c05.rs ... c10.rs, c16.rs, c17.rs, c32.rs", "serves_properties": ["C05", "C06", "C07", "C08", "C09", "C10", "C16", "C17", "C32"],
+             "kind_free_text": "formula programs through the real parser/evaluator with a reference evaluator and metamorphic relations"},
+            {"name": "structure", "path": "harness/src/props/c12.rs ... c15.rs, c29.rs, c30.rs, c31.rs, c33.rs", "serves_properties": ["C12", "C13", "C14", "C15", "C29", "C30", "C31", "C33"],
+             "kind_free_text": "structural and attribute edits against reference shift / attribute-table models"},
+            {"name": "xlsx", "path": "harness/src/props/c24.rs, c25.rs", "serves_properties": ["C24", "C25"],
+             "kind_free_text": "xlsx export/import round trips and package mutators with crash capture"},
         ],
         "checks": checks,
         "not_applicable": na,
